@@ -513,6 +513,18 @@ def check_uniform(ctx, i):
         if ok:
             ctx.check(is_array2d_on(aa, res, m) and ctx.close(_np(res.slim), exp_f, 1e-10, scale=fscale), "decorator.container",
                       function=fd, expected=exp_f, got=lambda: _np(res), calls=len(p.log), **W)
+        # ... and a container whose carried coordinates are NOT the sampler's own sub-grid (e.g. a deflected / shifted over-sampled
+        # grid): the function is evaluated at the coordinates the container carries, binned per pixel
+        if fd["kind"] not in ("step_int", "mask_bool", "zero_at_some_centres"):
+            own_pts = np.array(_np(osr.over_sampled_grid), dtype=float)
+            moved = own_pts + np.array([0.37 * scales[0], -0.21 * scales[1]]) + 0.05 * np.sin(3.0 * own_pts[:, ::-1])
+            p2 = P(f)
+            ok, res2 = ctx.guarded("decorator.exception", lambda: p2.raw(aa.Grid2DOverSampled(grid=aa.Grid2DIrregular(values=moved.copy()), over_sampler=osr, pixels_in_mask=n)))
+            if ok:
+                vals = np.asarray(f(moved), dtype=float)
+                exp2 = ref_bin(vals, sub)
+                ctx.check(is_array2d_on(aa, res2, m) and ctx.close(_np(res2.slim), exp2, 1e-10, scale=func_scale(fd, vals)), "decorator.container",
+                          which="carried coordinates differ from the sampler's own sub-grid", function=fd, expected=exp2, got=lambda: _np(res2), **W)
     cls = mask_classes(m, fam, scales, origin) + ["submap:" + skind, "func:" + fd["kind"]]
     if len(set(sub.tolist())) > 1:
         cls.append("submap:mixed_sizes")
